@@ -6,7 +6,8 @@ point_extraction.extract_points, NonIntersectingPoints.
 Index lists have a concrete length (1..3) and *symbolic entries* (so repeats and every order are covered); values are of an
 uninterpreted sort (bit-exact by construction, missing values included).  Point lookups go through the contract of
 get_index_for_point (verified under C04): each point independently hits some cell or misses.
-extract_dataframe (pandas merge) is carried by the bounded native stand-in.
+extract_dataframe (+ _dataframe_to_dataset) runs on a table model (pyvc/lib/pandas_.py, PD-FRAME) of 1..3 rows with symbolic cells; the
+merge with the extracted points goes through XR-MERGE-ALIGN (inner / outer join over increasing integer labels, NA fill).
 """
 from __future__ import annotations
 
@@ -47,10 +48,16 @@ def scenarios(tier):
             for k in ((1, 2) if tier == 'quick' else (1, 2, 3)):
                 out.append({'name': f'select_indexes[{conv}.{kind}, {k} indexes]', 'fn': 'scn_select', 'kwargs': {'ci': ci, 'kind': kind, 'k': k}})
             out.append({'name': f'select_index[{conv}.{kind}]', 'fn': 'scn_select_one', 'kwargs': {'ci': ci, 'kind': kind}})
+            out.append({'name': f'selection after an earlier selection and an in-place change[{conv}.{kind}]', 'fn': 'scn_select_history', 'kwargs': {'ci': ci, 'kind': kind}})
         out.append({'name': f'refusals[{conv}]', 'fn': 'scn_refusals', 'kwargs': {'ci': ci}})
         for policy in ('error', 'drop'):
             for k in (1, 2, 3):
                 out.append({'name': f'extract_points[{conv}, {k} points, {policy}]', 'fn': 'scn_points', 'kwargs': {'ci': ci, 'k': k, 'policy': policy}})
+        for policy in ('error', 'drop', 'fill'):
+            for k in (1, 2, 3):
+                for index in (('range', 'shifted') if k == 2 or tier != 'quick' else ('shifted',)):
+                    out.append({'name': f'extract_dataframe[{conv}, {k} rows, {policy}, index {index}]', 'fn': 'scn_dataframe',
+                                'kwargs': {'ci': ci, 'k': k, 'policy': policy, 'index': index}})
     out += lookup_contract_scenarios()        # the contract of get_index_for_point the point scenarios rely on, re-verified here
     return out
 
@@ -106,7 +113,17 @@ def _check_selection(c, it, ds, conv, conv_name, res, kind, comps_list, index_di
             c.assume(q >= 0)
             c.assume(q < sizes[d])
             o[d] = q
+        if not squeezed:
+            nrows = r.arr.shape[r.dims.index(index_dim)]
+            if isinstance(nrows, int) and nrows != len(comps_list):
+                c.check(f'{name!r}: one entry per request', False, note=f'{nrows} entries for {len(comps_list)} requests')
+                continue
         for p, comps in enumerate(comps_list):
+            if comps is None:
+                # a row kept for a point outside the model ('fill'): missing data
+                ridx = tuple(o[d] if d in o else p for d in r.dims)
+                c.check(f'{name!r}: entry {p} (a point outside the model) holds missing data', _is_na(r.arr.fn(ridx)))
+                continue
             cell = dict(zip(kdims, comps))
             src = tuple(o[d] if d in o else cell[d] for d in v.dims)
             ridx = tuple(o[d] if d in o else p for d in r.dims)
@@ -115,6 +132,14 @@ def _check_selection(c, it, ds, conv, conv_name, res, kind, comps_list, index_di
             c.check(f'{name!r}: entry {p} of the selection is exactly the value stored at the requested cell {p}', same)
             c.check(f'{name!r}: one entry per request', squeezed or s_eq(r.arr.shape[r.dims.index(index_dim)], len(comps_list)))
         c.check(f'{name!r}: attributes kept', r.attrs == v.attrs)
+
+
+def _is_na(v):
+    from pyvc.lib.floats import NANV
+    if v is NANV:
+        return True
+    kind = getattr(v, 'kind', None)
+    return kind is not None and kind is getattr(NANV, 'kind', object())
 
 
 def scn_select(c, ci, kind, k):
@@ -130,6 +155,31 @@ def scn_select(c, ci, kind, k):
     _check_selection(c, it, ds, conv, conv_name, res, kind, comps_list, 'request')
     res2 = expect_ok(c, 'select_indexes with drop_geometry=False returns', lambda: method(it, conv, 'select_indexes', natives, drop_geometry=False))
     _check_selection(c, it, ds, conv, conv_name, res2, kind, comps_list, 'index', drop_geometry=False)
+
+
+def scn_select_history(c, ci, kind):
+    """A selection made after an earlier selection and an in-place change of the dataset (a variable replaced, one added) returns
+    what the dataset holds now: nothing selected earlier is remembered."""
+    from pyvc.api import add_var
+    it, ds, conv, conv_name = _setup(c, ci)
+    km = inputs.kind_member(it, conv_name, kind)
+    shape = ds.info['shape'][kind]
+    first = _sym_index(c, shape, 'first')
+    expect_ok(c, 'an earlier selection returns', lambda: method(it, conv, 'select_indexes', [inputs.native_index(conv_name, km, first)]))
+    expect_ok(c, 'an earlier single selection returns', lambda: method(it, conv, 'select_index', inputs.native_index(conv_name, km, first)))
+    kdims = tuple(ds.info['dims'][kind])
+    geometry = set(method(it, conv, 'get_all_geometry_names'))
+    victim = next((n for n, v in ds._vars.items() if n not in ds._coord_names and n not in geometry and set(kdims) <= set(v.dims)), None)
+    if victim is not None:
+        old = ds._vars[victim]
+        add_var(ds, victim, old.dims, sym_array(c, 'replaced', old.arr.shape, 'V'), dict(old.attrs))      # dataset[victim] = other values
+    sizes = ds._sizes()
+    add_var(ds, 'added_later', kdims, sym_array(c, 'added', tuple(sizes[d] for d in kdims), 'V'), {'long_name': 'added after the first selection'})
+    comps = _sym_index(c, shape, 'idx')
+    res = expect_ok(c, 'select_indexes after the change returns', lambda: method(it, conv, 'select_indexes', [inputs.native_index(conv_name, km, comps)], index_dimension='request'))
+    _check_selection(c, it, ds, conv, conv_name, res, kind, [comps], 'request')
+    res1 = expect_ok(c, 'select_index after the change returns', lambda: method(it, conv, 'select_index', inputs.native_index(conv_name, km, comps)))
+    _check_selection(c, it, ds, conv, conv_name, res1, kind, [comps], 'index', squeezed=True)
 
 
 def scn_select_one(c, ci, kind):
@@ -224,4 +274,75 @@ def scn_points(c, ci, k, policy):
                 [lab.arr.fn((q,)) for q in range(lab.arr.shape[0])] == kept)
 
 
-NATIVE = {'extract_points': 'points', '': 'selection'}
+def scn_dataframe(c, ci, k, policy, index):
+    """extract_dataframe: a table of k rows (longitude, latitude, two more columns), any row hitting or missing the model."""
+    from pyvc.lib.pandas_ import DataFrameModel
+    from pyvc.lib.shapely_ import _fn
+    it, ds, conv, conv_name = _setup(c, ci)
+    lk = _lookup_contract(ds, conv_name)
+    it.contracts[lk.key] = lk
+    c.entry_points = _entry_points(it)
+    _accessors(c, it)
+    method(it, conv, 'bind')
+    ed = fn(it, 'emsarray.operations.point_extraction', 'extract_dataframe')
+    NIP = cls(it, 'emsarray.operations.point_extraction', 'NonIntersectingPoints')
+    lon = sym_array(c, 'tab_lon', (k,), 'real')
+    lat = sym_array(c, 'tab_lat', (k,), 'real')
+    name = sym_array(c, 'tab_name', (k,), 'V')
+    w = sym_array(c, 'tab_w', (k,), 'V')
+    labels = {'range': list(range(k)), 'shifted': [10 + p for p in range(k)]}[index]
+    df = DataFrameModel({'name': name, 'x': lon, 'y': lat, 'w': w}, labels)
+    kind_, val = outcome(lambda: call(it, ed, ds, df, ('x', 'y'), point_dimension='station', missing_points=policy))
+    hits = getattr(c, 'lookup_hits', {})
+    looked = [e for e in c.events if e[0] == 'call' and e[1] == 'get_index_for_point']
+    pxy = _fn('point_xy', z3.RealSort(), z3.RealSort(), GeomSort)
+
+    def num(v):
+        return core.zreal(v.val if hasattr(v, 'val') else v)
+    c.check('row p of the table is looked up as the point (longitude column, latitude column) of row p, once, in row order',
+            len(looked) == k and s_and(*[mk_bool(looked[p][2].z == pxy(num(lon.fn((p,))), num(lat.fn((p,))))) for p in range(len(looked))]))
+    if len(looked) != k:
+        return
+    pts = [e[2] for e in looked]
+    miss = [p for p in range(k) if id(pts[p]) not in hits]
+    kept = [p for p in range(k) if id(pts[p]) in hits]
+    if policy == 'error' and miss:
+        c.check("policy 'error': rows outside the model raise NonIntersectingPoints", kind_ == 'raise' and exc_matches(val, NIP))
+        if kind_ == 'raise' and exc_matches(val, NIP):
+            idx = val.attrs.get('indexes')
+            got = [idx.fn((q,)) for q in range(idx.shape[0])] if hasattr(idx, 'fn') and isinstance(idx.shape[0], int) else None
+            c.check("policy 'error' names exactly the rows outside the model (positions, ascending)", got == miss)
+        return
+    if not kept:
+        c.check(f"policy {policy!r} with every row outside the model returns ({'every row with missing data' if policy == 'fill' else 'an empty selection'}; it is not an error)",
+                kind_ == 'return', note=f'{kind_}: {val!r}')
+        return
+    c.check('extract_dataframe returns when at least one row hits', kind_ == 'return', note=f'{kind_}: {val!r}')
+    if kind_ != 'return':
+        return
+    res = val
+    rows = list(range(k)) if policy == 'fill' else kept
+    comps_list = [hits.get(id(pts[p])) for p in rows]
+    _check_selection(c, it, ds, conv, conv_name, res, 'face', comps_list, 'station')
+    lab = res._vars.get('station')
+    c.check("the rows are labelled with their positions in the table: 'drop' removes exactly the rows outside the model, 'fill' keeps every row",
+            lab is not None and lab.dims == ('station',) and isinstance(lab.arr.shape[0], int)
+            and [lab.arr.fn((q,)) for q in range(lab.arr.shape[0])] == rows and 'station' in res._coord_names)
+    for col, src in (('name', name), ('w', w), ('x', lon), ('y', lat)):
+        v = res._vars.get(col)
+        ok = v is not None and v.dims == ('station',) and isinstance(v.arr.shape[0], int) and v.arr.shape[0] == len(rows)
+        c.check(f'column {col!r} of the table is carried along, one entry per kept row', ok)
+        if ok:
+            for q, p in enumerate(rows):
+                got, want = v.arr.fn((q,)), src.fn((p,))
+                c.check(f"column {col!r}: entry {q} is the value of table row {p} (rows are paired with the points by position, whatever the table's index)",
+                        got.same_bits(want) if hasattr(got, 'same_bits') else s_eq(got, want))
+    c.check('the coordinate columns become coordinates', {'x', 'y'} <= res._coord_names and 'name' not in res._coord_names)
+    if 'x' in res._vars and 'y' in res._vars:
+        c.check('the coordinate columns are described as longitude and latitude', res._vars['x'].attrs.get('standard_name') == 'longitude'
+                and res._vars['y'].attrs.get('standard_name') == 'latitude' and res._vars['x'].attrs.get('units') == 'degrees_east'
+                and res._vars['y'].attrs.get('units') == 'degrees_north')
+    c.check('the table is not modified', df.index.labels == labels and df.index.name is None and list(df.columns_) == ['name', 'x', 'y', 'w'])
+
+
+NATIVE = {'extract_points': 'points', 'extract_dataframe': 'dataframe', '': 'selection'}
